@@ -1051,6 +1051,7 @@ TRANSPARENT = {
     "std::borrow::ToOwned::to_owned": "clone",
     "std::path::Path::new": "path",
     "std::path::PathBuf::as_path": "asref",
+    "std::option::Option::<T>::take": "take",       # the value that was there (`if let Some(p) = options.config_file.take()`)
 }
 
 
